@@ -146,8 +146,18 @@ Definition build_ranked (rank : key -> nat) (fuel : nat) (o : op) : Prop :=
   match o with OBuild k => (rank k < fuel)%nat | _ => True end.
 
 (* the engine instance sees the table tbl, no edit is pending, and the state satisfies the invariant *)
+Definition fixedR (rules : key -> rule) : key -> N -> rule := fun k _ => rules k.
+Lemma fixedR_ok : forall rules, table_ok rules (fixedR rules).
+Proof. intros rules k. reflexivity. Qed.
+
+Corollary c01_fresh_plain : forall rules env F order rank,
+  wf_rank rules rank -> wf_disc rules -> wf_order order ->
+  forall fuel k s', (rank k < fuel)%nat ->
+  build rules env F order fuel init_state k = Ok s' -> result_of s' k = cv rules env F fuel k.
+Proof. intros rules env F order rank. exact (c01_fresh_thm rules env F order rank (fixedR rules) (fixedR_ok rules)). Qed.
+
 Definition HInv (tbl : list (key * rule)) (F : key -> N -> list value -> list N -> N -> N) (h : hstate) : Prop :=
-  h_rules h = tbl /\ h_pending h = tbl /\ AtRest (rules_of tbl) F (h_st h).
+  h_rules h = tbl /\ h_pending h = tbl /\ AtRest F (fixedR (rules_of tbl)) (h_st h).
 
 Section Hist.
 Variable F : key -> N -> list value -> list N -> N -> N.
@@ -161,17 +171,17 @@ Hypothesis Horder : wf_order order.
 
 Lemma hstep_build : forall h k, HInv tbl F h -> (rank k < fuel)%nat ->
   exists s1, build (rules_of tbl) (env_of (h_env h)) F order fuel (emit (h_st h) (EBuildStart k)) k = Ok s1 /\
-    AtRest (rules_of tbl) F s1 /\
+    AtRest F (fixedR (rules_of tbl)) s1 /\
     hstep F order fuel h (OBuild k) =
       mkH (emit s1 (EResult (cv (rules_of tbl) (env_of (h_env h)) F fuel k) false)) (h_env h) (h_rules h) (h_pending h).
 Proof.
   intros h k (Hr & Hp & HR) Hk.
-  assert (HR0 : AtRest (rules_of tbl) F (emit (h_st h) (EBuildStart k))) by now apply AtRest_emit.
-  destruct (c01_no_cycle_when_ranked_thm _ (env_of (h_env h)) F order rank Hrank Hdisc Horder fuel _ k Hk HR0) as [s1 Hb].
+  assert (HR0 : AtRest F (fixedR (rules_of tbl)) (emit (h_st h) (EBuildStart k))) by now apply AtRest_emit.
+  destruct (c01_no_cycle_when_ranked_thm _ (env_of (h_env h)) F order rank _ (fixedR_ok _) Hrank Hdisc Horder fuel _ k Hk HR0) as [s1 Hb].
   exists s1. split; [exact Hb|]. split.
-  - eapply c01_build_preserves_thm; eauto.
+  - eapply (c01_build_preserves_thm _ (env_of (h_env h)) F order rank _ (fixedR_ok _) Hrank Hdisc Horder); eauto.
   - unfold hstep. rewrite Hr, Hb. f_equal. f_equal. f_equal.
-    eapply c01_incremental_eq_clean_thm; eauto.
+    eapply (c01_incremental_eq_clean_thm _ (env_of (h_env h)) F order rank _ (fixedR_ok _) Hrank Hdisc Horder); eauto.
 Qed.
 
 Lemma hstep_inv : forall h o, HInv tbl F h -> no_rule_op o -> build_ranked rank fuel o ->
@@ -252,6 +262,121 @@ Proof.
 Qed.
 
 End RunHistory.
+
+(* ---------- histories WITH rule edits ---------- *)
+
+(* R k sg is the one rule of key k with signature sg: the premise "two different rules for the same key never
+   share a signature" is [table_ok (rules_of tbl) R] for every table tbl an engine instance is started with *)
+Section Edits.
+Variable F : key -> N -> list value -> list N -> N -> N.
+Variable order : N -> key -> list dep -> list dep.
+Variable fuel : nat.
+Variable R : key -> N -> rule.
+Hypothesis Horder : wf_order order.
+
+(* what a build needs of the table tbl the engine instance currently sees *)
+Definition table_build_ok (tbl : list (key * rule)) (k : key) : Prop :=
+  table_ok (rules_of tbl) R /\ wf_disc (rules_of tbl) /\
+  exists rank, wf_rank (rules_of tbl) rank /\ (rank k < fuel)%nat.
+Definition build_ok (h : hstate) (k : key) : Prop := table_build_ok (h_rules h) k.
+Definition op_ok (h : hstate) (o : op) : Prop := match o with OBuild k => build_ok h k | _ => True end.
+
+(* the premise about the history, in terms of the rule tables only: rl = the table the current engine instance sees,
+   pd = the table as edited so far *)
+Definition next_rl (o : op) (rl pd : list (key * rule)) := match o with ORestart _ => pd | _ => rl end.
+Definition next_pd (o : op) (pd : list (key * rule)) := match o with ORule k r => (k, r) :: pd | _ => pd end.
+Fixpoint tables_ok (ops : list op) (rl pd : list (key * rule)) : Prop :=
+  match ops with
+  | [] => True
+  | o :: t => match o with OBuild k => table_build_ok rl k | _ => True end /\ tables_ok t (next_rl o rl pd) (next_pd o pd)
+  end.
+
+Fixpoint hist_ok (ops : list op) (h : hstate) : Prop :=
+  match ops with
+  | [] => True
+  | o :: t => op_ok h o /\ hist_ok t (hstep F order fuel h o)
+  end.
+
+Lemma hstep_tables : forall h o,
+  h_rules (hstep F order fuel h o) = next_rl o (h_rules h) (h_pending h) /\
+  h_pending (hstep F order fuel h o) = next_pd o (h_pending h).
+Proof.
+  intros h o. destruct o as [k n'|k r|db|k]; cbn [hstep next_rl next_pd h_rules h_pending]; auto.
+  destruct (build _ _ _ _ _ _ _); auto.
+Qed.
+
+Lemma tables_hist_ok : forall ops h, tables_ok ops (h_rules h) (h_pending h) -> hist_ok ops h.
+Proof.
+  induction ops as [|o ops IH]; intros h H; cbn [tables_ok hist_ok] in *; [exact I|].
+  destruct H as [Ho H]. split.
+  - destruct o; auto.
+  - apply IH. destruct (hstep_tables h o) as [-> ->]. exact H.
+Qed.
+
+Lemma hstep_edit_build : forall h k, AtRest F R (h_st h) -> build_ok h k ->
+  exists s1, AtRest F R s1 /\
+    hstep F order fuel h (OBuild k) =
+      mkH (emit s1 (EResult (cv (rules_of (h_rules h)) (env_of (h_env h)) F fuel k) false)) (h_env h) (h_rules h) (h_pending h).
+Proof.
+  intros h k HA (Htab & Hdisc & rank & Hrank & Hk).
+  assert (HA0 : AtRest F R (emit (h_st h) (EBuildStart k))) by now apply AtRest_emit.
+  destruct (c01_no_cycle_when_ranked_thm _ (env_of (h_env h)) F order rank R Htab Hrank Hdisc Horder fuel _ k Hk HA0) as [s1 Hb].
+  exists s1. split.
+  - eapply (c01_build_preserves_thm _ (env_of (h_env h)) F order rank R Htab Hrank Hdisc Horder); eauto.
+  - unfold hstep. rewrite Hb. f_equal. f_equal. f_equal.
+    eapply (c01_incremental_eq_clean_thm _ (env_of (h_env h)) F order rank R Htab Hrank Hdisc Horder); eauto.
+Qed.
+
+Lemma hstep_edit_inv : forall h o, AtRest F R (h_st h) -> op_ok h o -> AtRest F R (h_st (hstep F order fuel h o)).
+Proof.
+  intros h o HA Hok. destruct o as [k n'|k r|db|k]; cbn [op_ok] in Hok.
+  - exact HA.
+  - exact HA.
+  - unfold hstep; cbn [h_st]. apply AtRest_emit. destruct db; [now apply AtRest_restart | apply AtRest_restart_nodb].
+  - destruct (hstep_edit_build h k HA Hok) as (s1 & HA1 & ->). cbn [h_st]. now apply AtRest_emit.
+Qed.
+
+Theorem c01_history_with_rule_edits_thm : forall ops h, AtRest F R (h_st h) -> hist_ok ops h ->
+  AtRest F R (h_st (fold_left (hstep F order fuel) ops h)).
+Proof.
+  induction ops as [|o ops IH]; intros h HA Hok; cbn [fold_left]; [exact HA|].
+  destruct Hok as [Ho Hrest]. apply IH; [|exact Hrest]. now apply hstep_edit_inv.
+Qed.
+
+Lemma hist_ok_app : forall ops1 ops2 h, hist_ok (ops1 ++ ops2) h ->
+  hist_ok ops1 h /\ hist_ok ops2 (fold_left (hstep F order fuel) ops1 h).
+Proof.
+  induction ops1 as [|o ops1 IH]; intros ops2 h H; cbn [app hist_ok fold_left] in *; [tauto|].
+  destruct H as [Ho H]. apply IH in H. tauto.
+Qed.
+
+(* every build of a history with rule edits returns the clean value under the table its engine instance sees *)
+Theorem c01_every_build_clean_with_rule_edits_thm : forall ops k h0, AtRest F R (h_st h0) ->
+  hist_ok (ops ++ [OBuild k]) h0 ->
+  let h := fold_left (hstep F order fuel) ops h0 in
+  exists s1, h_st (hstep F order fuel h (OBuild k)) =
+             emit s1 (EResult (cv (rules_of (h_rules h)) (env_of (h_env h)) F fuel k) false).
+Proof.
+  intros ops k h0 HA Hok h. apply hist_ok_app in Hok. destruct Hok as [H1 [H2 _]].
+  destruct (hstep_edit_build h k (c01_history_with_rule_edits_thm ops h0 HA H1) H2) as (s1 & _ & ->).
+  now exists s1.
+Qed.
+
+(* from the very beginning, with the premise stated over the tables only *)
+Theorem c01_run_history_with_rule_edits_thm : forall ops k, tables_ok (ops ++ [OBuild k]) [] [] ->
+  let h := run_history F order fuel ops in
+  AtRest F R (h_st h) /\
+  exists s1, h_st (run_history F order fuel (ops ++ [OBuild k])) =
+             emit s1 (EResult (cv (rules_of (h_rules h)) (env_of (h_env h)) F fuel k) false).
+Proof.
+  intros ops k Hok h. subst h. unfold run_history.
+  pose proof (tables_hist_ok (ops ++ [OBuild k]) init_h Hok) as Hh.
+  assert (HA : AtRest F R (h_st init_h)) by apply AtRest_init. split.
+  - apply c01_history_with_rule_edits_thm; [exact HA|]. now apply hist_ok_app in Hh.
+  - rewrite fold_left_app. cbn [fold_left]. now apply c01_every_build_clean_with_rule_edits_thm.
+Qed.
+
+End Edits.
 
 (* ---------- decidable versions of the hypotheses for rule tables ---------- *)
 
@@ -342,3 +467,41 @@ Proof. vm_compute. reflexivity. Qed.
 
 Lemma ex_ops_ok : Forall no_rule_op ex_ops /\ Forall (build_ranked ex_rank 5) ex_ops.
 Proof. split; repeat constructor. Qed.
+
+(* ---------- constructing R from the list of all rules ever defined ---------- *)
+
+Definition R_of (all : list (key * rule)) (k : key) (sg : N) : rule :=
+  match find (fun p => N.eqb (fst p) k && N.eqb (r_sig (snd p)) sg) all with
+  | Some p => snd p
+  | None => default_rule
+  end.
+
+(* H_sig: no two listed rules of one key share a signature (the (key, signature) pairs are pairwise distinct) *)
+Definition sig_unique (all : list (key * rule)) : Prop :=
+  forall p1 p2, In p1 all -> In p2 all -> fst p1 = fst p2 -> r_sig (snd p1) = r_sig (snd p2) -> p1 = p2.
+
+Fixpoint nodup_b (l : list (N * N)) : bool :=
+  match l with
+  | [] => true
+  | x :: t => negb (existsb (fun y => N.eqb (fst x) (fst y) && N.eqb (snd x) (snd y)) t) && nodup_b t
+  end.
+Definition sig_unique_b (all : list (key * rule)) : bool := nodup_b (map (fun p => (fst p, r_sig (snd p))) all).
+
+Lemma nodup_b_inj : forall {A} (f : A -> N * N) l, nodup_b (map f l) = true ->
+  forall a b, In a l -> In b l -> f a = f b -> a = b.
+Proof.
+  intros A f l. induction l as [|x t IH]; intros H a b Ha Hb Hf; [contradiction Ha|].
+  cbn [map nodup_b] in H. apply andb_true_iff in H. destruct H as [Hx Ht]. apply negb_true_iff in Hx.
+  assert (Hnot : forall y, In y t -> f x <> f y).
+  { intros y Hy Heq. assert (Hex : existsb (fun z => N.eqb (fst (f x)) (fst z) && N.eqb (snd (f x)) (snd z)) (map f t) = true).
+    { apply existsb_exists. exists (f y). split; [now apply in_map|]. rewrite Heq. now rewrite !N.eqb_refl. }
+    congruence. }
+  destruct Ha as [<-|Ha], Hb as [<-|Hb]; auto.
+  - exfalso. now apply (Hnot b Hb).
+  - exfalso. apply (Hnot a Ha). now symmetry.
+Qed.
+
+Lemma sig_unique_b_sound : forall all, sig_unique_b all = true -> sig_unique all.
+Proof.
+  intros all H p1 p2 H1 H2 Hk Hs. apply (nodup_b_inj _ all H); auto. now rewrite Hk, Hs.
+Qed.
